@@ -12,7 +12,9 @@
 (* surface at a later API call.  write_all: Interrupted is retried, Ok(0)  *)
 (* is an error (WriteZero), a short count continues with the rest.  After  *)
 (* the first failed call the caller issues no further data call, only the  *)
-(* terminating one (driver protocol).  One step = at most one sink call.   *)
+(* terminating one (driver protocol), and retries a failed terminating     *)
+(* call twice; a retried terminating call does not emit again what it has  *)
+(* already handed to the write path.  One step = at most one sink call.    *)
 (*                                                                         *)
 (* (b) A reader over a source that is cut at `cut` bytes and / or fails at *)
 (* call k.  A file is a sequence of frames (header h, body b bytes, one    *)
@@ -34,18 +36,20 @@ CONSTANTS Scripts,    \* API scripts: sequences of [n |-> 0..3, fl |-> BOOLEAN]
           Caps,       \* BufWriter capacities, 0 = unbuffered
           Files,      \* [frames |-> Seq([h, b]), footer |-> Nat]
           MaxK,       \* fault indices 0..MaxK (0 = no fault)
-          Lossy       \* TRUE: a defective writer that ignores the count returned by write (negative test)
+          Lossy,      \* TRUE: a defective writer that ignores the count returned by write (negative test)
+          Forgetful   \* TRUE: a defective writer whose terminating call, retried after a failure, does
+                      \*       nothing and reports success ("finished" was set before the write; negative test)
 
 VARIABLES mode,                              \* "w" | "r"
           plan, dev, calls, log,             \* fault plan, device state (FaultOps), calls made, call log
           \* writer
-          script, cap, ai, phase, out, buf, acc, res, at,
+          script, cap, ai, phase, out, buf, acc, res, at, fin,
           \* reader
           file, cut, pos, stage, fi, need, emitted, outcome
 
-vars == <<mode, plan, dev, calls, log, script, cap, ai, phase, out, buf, acc, res, at,
+vars == <<mode, plan, dev, calls, log, script, cap, ai, phase, out, buf, acc, res, at, fin,
           file, cut, pos, stage, fi, need, emitted, outcome>>
-wvars == <<script, cap, ai, phase, out, buf, acc, res, at>>
+wvars == <<script, cap, ai, phase, out, buf, acc, res, at, fin>>
 rvars == <<file, cut, pos, stage, fi, need, emitted, outcome>>
 
 RECURSIVE Sum(_, _)
@@ -58,8 +62,14 @@ Full(s) == Ids(0, Total(s))
 WriterKinds == {"error", "error_once", "short", "interrupted", "zero"}
 ReaderKinds == {"error", "error_once", "short", "interrupted"}
 
+(* the terminating call: attempts completed, and whether its bytes were all   *)
+(* handed to the write path (buffer or sink) - a retry must not emit them     *)
+(* again.  The caller retries a failed terminating call twice.                *)
+NoFin == [tries |-> 0, handed |-> FALSE]
+MaxTries == 3
+
 WIdle == /\ script = <<>> /\ cap = 0 /\ ai = 0 /\ phase = "off" /\ out = <<>> /\ buf = <<>>
-         /\ acc = <<>> /\ res = <<>> /\ at = <<>>
+         /\ acc = <<>> /\ res = <<>> /\ at = <<>> /\ fin = NoFin
 RIdle == /\ file = [frames |-> <<>>, footer |-> 0] /\ cut = 0 /\ pos = 0 /\ stage = "off" /\ fi = 0
          /\ need = 0 /\ emitted = <<>> /\ outcome = "off"
 
@@ -79,7 +89,7 @@ Init ==
   /\ \/ /\ mode = "w" /\ RIdle
         /\ plan \in Plans(WriterKinds)
         /\ script \in Scripts /\ cap \in Caps
-        /\ ai = 0 /\ phase = "idle" /\ out = <<>> /\ buf = <<>> /\ acc = <<>> /\ res = <<>> /\ at = <<>>
+        /\ ai = 0 /\ phase = "idle" /\ out = <<>> /\ buf = <<>> /\ acc = <<>> /\ res = <<>> /\ at = <<>> /\ fin = NoFin
      \/ /\ mode = "r" /\ WIdle
         /\ plan \in Plans(ReaderKinds)
         /\ file \in Files
@@ -95,16 +105,22 @@ Return(r) ==
   /\ res' = Append(res, r)
   /\ at' = Append(at, calls')
   /\ out' = <<>>
-  /\ phase' = IF ai = Last THEN "done" ELSE "idle"
+  /\ fin' = [tries   |-> IF ai = Last THEN fin.tries + 1 ELSE fin.tries,
+             handed  |-> fin.handed \/ (ai = Last /\ out = <<>>)]
+  /\ phase' = IF ai = Last /\ (r = "ok" \/ fin.tries + 1 = MaxTries) THEN "done" ELSE "idle"
 
 WCall ==
   /\ mode = "w" /\ phase = "idle"
   /\ LET failed == \E i \in DOMAIN res : res[i] = "err"
          nxt == IF failed THEN Last ELSE ai + 1 IN
      /\ ai' = nxt
-     /\ out' = Ids(Sum(script, nxt - 1), Sum(script, nxt))
-     /\ phase' = "emit"
-  /\ UNCHANGED <<mode, plan, dev, calls, log, script, cap, buf, acc, res, at>> /\ UNCHANGED rvars
+     /\ IF Forgetful /\ ai = Last /\ fin.tries > 0
+        THEN \* the defect: the retried terminating call believes it has finished
+             /\ calls' = calls /\ Return("ok")
+        ELSE /\ out' = IF nxt = Last /\ fin.handed THEN <<>> ELSE Ids(Sum(script, nxt - 1), Sum(script, nxt))
+             /\ phase' = "emit"
+             /\ UNCHANGED <<calls, res, at, fin>>
+  /\ UNCHANGED <<mode, plan, dev, log, script, cap, buf, acc>> /\ UNCHANGED rvars
 
 (* one sink write of `data`; `src` tells which of buf / out it came from      *)
 SinkWrite(data, src) ==
@@ -121,7 +137,7 @@ SinkWrite(data, src) ==
           ELSE /\ IF src = "buf"
                   THEN buf' = SubSeq(data, gone + 1, Len(data)) /\ UNCHANGED out
                   ELSE out' = SubSeq(data, gone + 1, Len(data)) /\ UNCHANGED buf
-               /\ UNCHANGED <<res, at, phase>>
+               /\ UNCHANGED <<res, at, phase, fin>>
 
 (* BufWriter::write: make room, then either pass a large write through or    *)
 (* copy into the buffer                                                      *)
@@ -141,13 +157,13 @@ WToBuf ==
   /\ mode = "w" /\ phase = "emit" /\ out # <<>>
   /\ Len(buf) + Len(out) <= cap /\ Len(out) < cap
   /\ buf' = buf \o out /\ out' = <<>>
-  /\ UNCHANGED <<mode, plan, dev, calls, log, script, cap, ai, phase, acc, res, at>> /\ UNCHANGED rvars
+  /\ UNCHANGED <<mode, plan, dev, calls, log, script, cap, ai, phase, acc, res, at, fin>> /\ UNCHANGED rvars
 
 (* all bytes of the call are on their way: flush or return                   *)
 WEmitted ==
   /\ mode = "w" /\ phase = "emit" /\ out = <<>>
   /\ IF script[ai].fl
-     THEN phase' = "drain" /\ UNCHANGED <<calls, res, at, out>>
+     THEN phase' = "drain" /\ UNCHANGED <<calls, res, at, out, fin>>
      ELSE calls' = calls /\ Return("ok")
   /\ UNCHANGED <<mode, plan, dev, log, script, cap, ai, buf, acc>> /\ UNCHANGED rvars
 
@@ -171,7 +187,9 @@ WNext == WCall \/ WSpill \/ WDirect \/ WToBuf \/ WEmitted \/ WDrain \/ WFlush
 
 WSummary ==
   [class |-> FaultClass(plan, dev), redundant |-> dev.redundant, k |-> plan.k,
-   res |-> res, at |-> at, prefix |-> IsPrefix(acc, Full(script)), complete |-> acc = Full(script)]
+   res |-> res, at |-> at,
+   term |-> [i \in 1..Len(res) |-> IF i > Len(res) - fin.tries THEN 1 ELSE 0],
+   prefix |-> IsPrefix(acc, Full(script)), complete |-> acc = Full(script)]
 
 (* ------------------------------------------------------------ the reader *)
 NFrames == Len(file.frames)
